@@ -171,7 +171,7 @@ static void check13(const Bytes &doc, bool arr, unsigned depth, Src &s, const st
         // block boundaries: every multiple of 16384 characters after the start of each of the first structural characters (+-1)
         {
             size_t seenp = 0;
-            for (size_t i = 0; i < full.text.size() && seenp < 12; i++) {
+            for (size_t i = 0; i < full.text.size() && seenp < 6; i++) {
                 char ch = full.text[i];
                 if (ch == 'x' || ch == '"' || ch == '[' || ch == ':') {
                     seenp++;
